@@ -505,6 +505,31 @@ void vf::run_case(Src &s, Ctx &c)
             return;
         steps = std::max(steps, 1);
     }
+    // second epilogue (decoded last): a new query on the same planner after the caller has tightened the control bounds - clear(), drop the
+    // reported solutions, RealVectorControlSpace::setBounds() with a fraction of the old range, solve. Nothing a planner or a sampler derived
+    // from the old bounds may survive: every control of the new solution lies within the new bounds.
+    if (s.chance(64))
+    {
+        double f = s.real(0.2, 0.8);
+        ob::RealVectorBounds cb(sy.cdim);
+        for (unsigned k = 0; k < sy.cdim; ++k)
+        {
+            double mid = 0.5 * (sy.clo[k] + sy.chi[k]), half = 0.5 * (sy.chi[k] - sy.clo[k]) * f;
+            sy.clo[k] = mid - half;
+            sy.chi[k] = mid + half;
+            cb.setLow(k, sy.clo[k]);
+            cb.setHigh(k, sy.chi[k]);
+        }
+        P->pdef->clearSolutionPaths();
+        pl->clear();
+        cspace->setBounds(cb);
+        resumedSolve = false;
+        c.count("history:epilogue(clear, tighter control bounds, solve)");
+        c.note(" => clear, control bounds x %.3g, solve(k=%ld)", f, budget);
+        if (!solveOnce(budget))
+            return;
+        steps = std::max(steps, 1);
+    }
     c.note("\n");
     c.nontrivial = steps > 0 || anyInteresting;
 #endif
